@@ -79,3 +79,42 @@ func SessionV2(issuer, subject User, verbs []sessionv2.Verb, cnr cid.ID, iat, nb
 	}
 	return t
 }
+
+// SessionV2Chain builds a delegation chain of len(issuers) genuinely signed V2 tokens: token 0 is issued by
+// issuers[0] to issuers[1], token k by issuers[k] (a subject of token k-1, embedded as origin) to issuers[k+1],
+// the last one to presenter. All levels carry the same context and lifetime; only the outermost is final.
+// The outermost token is returned.
+func SessionV2Chain(issuers []User, presenter User, verbs []sessionv2.Verb, cnr cid.ID, iat, nbf, exp time.Time) sessionv2.Token {
+	var prev *sessionv2.Token
+	for k, is := range issuers {
+		subj := presenter
+		if k+1 < len(issuers) {
+			subj = issuers[k+1]
+		}
+		var t sessionv2.Token
+		t.SetVersion(sessionv2.TokenCurrentVersion)
+		ctx, err := sessionv2.NewContext(cnr, verbs)
+		if err != nil {
+			panic(err)
+		}
+		if err = t.SetContexts([]sessionv2.Context{ctx}); err != nil {
+			panic(err)
+		}
+		if err = t.SetSubjects([]sessionv2.Target{sessionv2.NewTargetUser(subj.ID)}); err != nil {
+			panic(err)
+		}
+		t.SetIat(iat)
+		t.SetNbf(nbf)
+		t.SetExp(exp)
+		t.SetFinal(k == len(issuers)-1)
+		if prev != nil {
+			t.SetOrigin(prev)
+		}
+		if err = t.Sign(user.NewAutoIDSignerRFC6979(is.Key.PrivateKey)); err != nil {
+			panic(err)
+		}
+		c := t
+		prev = &c
+	}
+	return *prev
+}
